@@ -4,10 +4,13 @@ ONLY property theorems, one refutation with its witness, and non-vacuity example
 current /repo); proofs: `Lemmas/Ecdh.lean`.  Curve arithmetic, SHA-256 and the secret box are parameters (`DhOps`/`DhLaws`,
 `hash` with `hlen`, `BoxOps`/`BoxLaws`); `BoxIdeal` is an idealisation and is used by `box_open_only_sealed` alone.
 
-One full-strength statement is FALSE on the current tree and is kept visible as `TagGuardComplete : Prop`:
-the explicit guard of `Ecdh1PU::derive_key_bytes` lets tags of up to 128 bytes through, but the `pub_info` stack buffer has 132 bytes
-for `be32 keybits ‖ be32 |tag| ‖ tag`, i.e. room for 124 — tags of 125…128 bytes fail with `ExceededBuffer`
-(→ `tag_guard_complete_refuted`, `tag_guard_partial`, `pu_tag_125_128_rejected`).  Never a panic, never an overrun (`guards_*`).
+The size of the `pub_info` stack buffer of `Ecdh1PU::derive_key_bytes` is DATA of the source: it reaches the model as
+`Generated.ecdh1puPubInfoCap` (tools/extract.py).  Every theorem about ECDH-1PU is proved for ANY capacity `cap`
+(`…Cap` functions); the current tree is the instance `cap = ecdh1puPubInfoCap`.  The explicit guard `cc_tag.len() > 128` promises
+that every tag of at most 128 bytes is accepted; that promise (`TagGuardCompleteFor cap`) holds IFF `136 ≤ cap`
+(`tag_guard_complete_iff`): it was false on the pinned tree (`[0u8; 132]`, defect D30, `tag_guard_complete_refuted_132`) and is
+true now (`tag_guard_complete`, an obligation over the generated constant that breaks if the buffer shrinks again).
+Never a panic, never an overrun, for any capacity (`guards_*`).
 
 "Changing any input changes the derived key" = `kdfInput_injective_*` + collision resistance of SHA-256 (assumed, not stated);
 "fails for any other key / nonce / altered ciphertext" = `box_open_only_sealed` + unforgeability (assumed); both are exercised by
@@ -19,6 +22,7 @@ import AskarModel.Lemmas.Ecdh
 namespace Askar.C15
 open Askar.Ecdh
 open Askar.Bytes (be32)
+open Askar.Generated (ecdh1puPubInfoCap)
 
 /-! ### sender and recipient derive the same key -/
 
@@ -31,12 +35,19 @@ theorem es_agree (D : DhOps) (L : DhLaws D) (hash : Bytes → Bytes) (t : Target
       deriveKeyEcdhEs D hash t (Key.public D c e) (Key.full D c r) alg apu apv true :=
   Ecdh.es_agree D L hash t c e r he hr alg apu apv
 
-/-- ECDH-1PU through `derive_key_ecdh_1pu` -/
+/-- ECDH-1PU through `derive_key_ecdh_1pu`, for any size of the `pub_info` buffer … -/
+theorem pu_agree_cap (cap : Nat) (D : DhOps) (L : DhLaws D) (hash : Bytes → Bytes) (t : Target) (c : Curve) (e s r : Bytes)
+    (he : L.valid c e) (hs : L.valid c s) (hr : L.valid c r) (alg apu apv tag : Bytes) :
+    deriveKeyEcdh1puCap cap D hash t (Key.full D c e) (Key.full D c s) (Key.public D c r) alg apu apv tag false =
+      deriveKeyEcdh1puCap cap D hash t (Key.public D c e) (Key.public D c s) (Key.full D c r) alg apu apv tag true :=
+  Ecdh.pu_agree cap D L hash t c e s r he hs hr alg apu apv tag
+
+/-- … in particular on the current tree -/
 theorem pu_agree (D : DhOps) (L : DhLaws D) (hash : Bytes → Bytes) (t : Target) (c : Curve) (e s r : Bytes)
     (he : L.valid c e) (hs : L.valid c s) (hr : L.valid c r) (alg apu apv tag : Bytes) :
     deriveKeyEcdh1pu D hash t (Key.full D c e) (Key.full D c s) (Key.public D c r) alg apu apv tag false =
       deriveKeyEcdh1pu D hash t (Key.public D c e) (Key.public D c s) (Key.full D c r) alg apu apv tag true :=
-  Ecdh.pu_agree D L hash t c e s r he hs hr alg apu apv tag
+  Ecdh.pu_agree ecdh1puPubInfoCap D L hash t c e s r he hs hr alg apu apv tag
 
 /-! ### every input matters: the hashed string determines all of them -/
 
@@ -72,12 +83,22 @@ theorem es_matches_rfc7518 (D : DhOps) (hash : Bytes → Bytes) (hlen : ∀ x, (
     deriveEsBytes D hash eph rcp alg apu apv receive n = .ok (Spec.esKey hash z alg apu apv n) :=
   Ecdh.esBytes_matches D hash hlen eph rcp alg apu apv receive n hn z hz
 
-/-- ECDH-1PU draft §2.3 (Z = Ze ‖ Zs, the non-empty tag appended to SuppPubInfo as Datalen ‖ Data), for tags of at most 124 bytes -/
+/-- ECDH-1PU draft §2.3 (Z = Ze ‖ Zs, the non-empty tag appended to SuppPubInfo as Datalen ‖ Data): for any buffer size `cap`,
+    every tag that passes the guard and fits (`|tag| + 8 ≤ cap`) gives the draft's key -/
+theorem pu_matches_draft_cap (cap : Nat) (D : DhOps) (hash : Bytes → Bytes) (hlen : ∀ x, (hash x).length = 32) (eph snd rcp : Key)
+    (alg apu apv tag : Bytes) (receive : Bool) (n : Nat) (hn : n ≤ 32) (ht : tag.length ≤ 128) (hcap : tag.length + 8 ≤ cap)
+    (ze zs : Bytes) (hze : exchange D eph rcp receive = .ok ze) (hzs : exchange D snd rcp receive = .ok zs) :
+    derive1puBytesCap cap D hash eph snd rcp alg apu apv tag receive n = .ok (Spec.puKey hash ze zs alg apu apv tag n) :=
+  Ecdh.puBytes_matches cap D hash hlen eph snd rcp alg apu apv tag receive n hn ht hcap ze zs hze hzs
+
+/-- the current tree: EVERY tag of at most 128 bytes (obligation over the generated constant: `136 ≤ ecdh1puPubInfoCap`) -/
 theorem pu_matches_draft (D : DhOps) (hash : Bytes → Bytes) (hlen : ∀ x, (hash x).length = 32) (eph snd rcp : Key)
-    (alg apu apv tag : Bytes) (receive : Bool) (n : Nat) (hn : n ≤ 32) (ht : tag.length ≤ 124) (ze zs : Bytes)
+    (alg apu apv tag : Bytes) (receive : Bool) (n : Nat) (hn : n ≤ 32) (ht : tag.length ≤ 128) (ze zs : Bytes)
     (hze : exchange D eph rcp receive = .ok ze) (hzs : exchange D snd rcp receive = .ok zs) :
     derive1puBytes D hash eph snd rcp alg apu apv tag receive n = .ok (Spec.puKey hash ze zs alg apu apv tag n) :=
-  Ecdh.puBytes_matches D hash hlen eph snd rcp alg apu apv tag receive n hn ht ze zs hze hzs
+  Ecdh.puBytes_matches ecdh1puPubInfoCap D hash hlen eph snd rcp alg apu apv tag receive n hn ht
+    (by have : 136 ≤ ecdh1puPubInfoCap := by decide
+        omega) ze zs hze hzs
 
 /-- on the sender's side the secret that enters is the sender's view of the exchange (the flag picks the right pair) -/
 theorem es_sender_secret (D : DhOps) (c : Curve) (e r : Bytes) :
@@ -91,13 +112,15 @@ theorem guards_es_output_length (D : DhOps) (hash : Bytes → Bytes) (eph rcp : 
     (hn : n > 32) : deriveEsBytes D hash eph rcp alg apu apv receive n = .err .unsupported :=
   Ecdh.es_len_guard D hash eph rcp alg apu apv receive n hn
 
-theorem guards_1pu_output_length (D : DhOps) (hash : Bytes → Bytes) (eph snd rcp : Key) (alg apu apv tag : Bytes) (receive : Bool)
-    (n : Nat) (hn : n > 32) : derive1puBytes D hash eph snd rcp alg apu apv tag receive n = .err .unsupported :=
-  Ecdh.pu_len_guard D hash eph snd rcp alg apu apv tag receive n hn
+theorem guards_1pu_output_length (cap : Nat) (D : DhOps) (hash : Bytes → Bytes) (eph snd rcp : Key) (alg apu apv tag : Bytes)
+    (receive : Bool) (n : Nat) (hn : n > 32) :
+    derive1puBytesCap cap D hash eph snd rcp alg apu apv tag receive n = .err .unsupported :=
+  Ecdh.pu_len_guard cap D hash eph snd rcp alg apu apv tag receive n hn
 
-theorem guards_1pu_tag_length (D : DhOps) (hash : Bytes → Bytes) (eph snd rcp : Key) (alg apu apv tag : Bytes) (receive : Bool)
-    (n : Nat) (ht : tag.length > 128) : derive1puBytes D hash eph snd rcp alg apu apv tag receive n = .err .unsupported :=
-  Ecdh.pu_tag_guard D hash eph snd rcp alg apu apv tag receive n ht
+theorem guards_1pu_tag_length (cap : Nat) (D : DhOps) (hash : Bytes → Bytes) (eph snd rcp : Key) (alg apu apv tag : Bytes)
+    (receive : Bool) (n : Nat) (ht : tag.length > 128) :
+    derive1puBytesCap cap D hash eph snd rcp alg apu apv tag receive n = .err .unsupported :=
+  Ecdh.pu_tag_guard cap D hash eph snd rcp alg apu apv tag receive n ht
 
 /-- no input whatsoever — keys of any kind, identifiers and tags of any length, any requested length — reaches a slice-bounds
     panic (digest slice, `Writer` slice, `as_ref`) -/
@@ -105,42 +128,67 @@ theorem guards_es_no_panic (D : DhOps) (hash : Bytes → Bytes) (hlen : ∀ x, (
     (alg apu apv : Bytes) (receive : Bool) (n : Nat) : deriveEsBytes D hash eph rcp alg apu apv receive n ≠ .panic :=
   Ecdh.deriveEsBytes_ne_panic D hash hlen eph rcp alg apu apv receive n
 
-theorem guards_1pu_no_panic (D : DhOps) (hash : Bytes → Bytes) (hlen : ∀ x, (hash x).length = 32) (eph snd rcp : Key)
+theorem guards_1pu_no_panic (cap : Nat) (D : DhOps) (hash : Bytes → Bytes) (hlen : ∀ x, (hash x).length = 32) (eph snd rcp : Key)
     (alg apu apv tag : Bytes) (receive : Bool) (n : Nat) :
-    derive1puBytes D hash eph snd rcp alg apu apv tag receive n ≠ .panic :=
-  Ecdh.derive1puBytes_ne_panic D hash hlen eph snd rcp alg apu apv tag receive n
+    derive1puBytesCap cap D hash eph snd rcp alg apu apv tag receive n ≠ .panic :=
+  Ecdh.derive1puBytesCap_ne_panic cap D hash hlen eph snd rcp alg apu apv tag receive n
 
-/-- the 132-byte `pub_info` buffer is never overrun: whatever `as_ref` hands to the hash has at most 132 bytes -/
-theorem guards_pub_info_bounded {n : Nat} {tag b : Bytes} (h : pubInfo1pu n tag = .ok b) : b.length ≤ 132 :=
-  Ecdh.pubInfo1pu_bounded h
+/-- the `pub_info` buffer is never overrun, whatever its size: what `as_ref` hands to the hash has at most `cap` bytes -/
+theorem guards_pub_info_bounded {cap n : Nat} {tag b : Bytes} (h : pubInfo1puCap cap n tag = .ok b) : b.length ≤ cap :=
+  Ecdh.pubInfo1puCap_bounded h
 
-/-- Full strength (what the guard `cc_tag.len() > 128` announces): every tag of at most 128 bytes is accepted. -/
-def TagGuardComplete : Prop :=
+/-- Full strength (what the guard `cc_tag.len() > 128` announces) for a buffer of `cap` bytes: every tag of at most 128 bytes
+    is accepted. -/
+def TagGuardCompleteFor (cap : Nat) : Prop :=
   ∀ (D : DhOps) (hash : Bytes → Bytes), (∀ x, (hash x).length = 32) → ∀ (c : Curve) (e s r alg apu apv tag : Bytes) (n : Nat),
     n ≤ 32 → tag.length ≤ 128 →
-    ∃ k, derive1puBytes D hash (Key.full D c e) (Key.full D c s) (Key.public D c r) alg apu apv tag false n = .ok k
+    ∃ k, derive1puBytesCap cap D hash (Key.full D c e) (Key.full D c s) (Key.public D c r) alg apu apv tag false n = .ok k
 
-/-- what actually happens for 125 … 128 bytes -/
-theorem pu_tag_125_128_rejected (D : DhOps) (hash : Bytes → Bytes) (hlen : ∀ x, (hash x).length = 32) (c : Curve)
-    (e s r alg apu apv tag : Bytes) (n : Nat) (hn : n ≤ 32) (ht : 124 < tag.length) (ht' : tag.length ≤ 128) :
-    derive1puBytes D hash (Key.full D c e) (Key.full D c s) (Key.public D c r) alg apu apv tag false n = .err .exceededBuffer :=
-  Ecdh.puBytes_tag_125_128 D hash hlen _ _ _ alg apu apv tag false n hn ht ht' _ _
+/-- the statement about the current tree -/
+def TagGuardComplete : Prop := TagGuardCompleteFor ecdh1puPubInfoCap
+
+/-- what happens to a non-empty tag that passes the guard but does not fit: `ExceededBuffer`, on either side -/
+theorem pu_tag_exceeds_cap_rejected (cap : Nat) (D : DhOps) (hash : Bytes → Bytes) (hlen : ∀ x, (hash x).length = 32) (c : Curve)
+    (e s r alg apu apv tag : Bytes) (n : Nat) (hn : n ≤ 32) (hne : tag ≠ []) (ht : cap < tag.length + 8) (ht' : tag.length ≤ 128) :
+    derive1puBytesCap cap D hash (Key.full D c e) (Key.full D c s) (Key.public D c r) alg apu apv tag false n =
+      .err .exceededBuffer :=
+  Ecdh.puBytes_tag_exceeds_cap cap D hash hlen _ _ _ alg apu apv tag false n hn hne ht ht' _ _
     (Ecdh.exchange_full_public D c e r) (Ecdh.exchange_full_public D c s r)
 
-/-- FALSE on the current tree (witness: a 125-byte tag) -/
-theorem tag_guard_complete_refuted : ¬ TagGuardComplete := by
+/-- the part that holds for every capacity: every tag with `|tag| + 8 ≤ cap` (and ≤ 128) is accepted -/
+theorem tag_guard_partial (cap : Nat) (D : DhOps) (hash : Bytes → Bytes) (hlen : ∀ x, (hash x).length = 32) (c : Curve)
+    (e s r alg apu apv tag : Bytes) (n : Nat) (hn : n ≤ 32) (ht : tag.length ≤ 128) (hcap : tag.length + 8 ≤ cap) :
+    ∃ k, derive1puBytesCap cap D hash (Key.full D c e) (Key.full D c s) (Key.public D c r) alg apu apv tag false n = .ok k :=
+  ⟨_, Ecdh.puBytes_matches cap D hash hlen _ _ _ alg apu apv tag false n hn ht hcap _ _
+    (Ecdh.exchange_full_public D c e r) (Ecdh.exchange_full_public D c s r)⟩
+
+/-- the guard is complete exactly when the buffer has room for 4 + 4 + 128 bytes -/
+theorem tag_guard_complete_iff (cap : Nat) : TagGuardCompleteFor cap ↔ 136 ≤ cap := by
+  constructor
+  · intro h
+    obtain ⟨k, hk⟩ := h toyDh toyHash pad32_length .x25519 [1] [2] [3] [] [] [] (List.replicate 128 0) 16 (by omega) (by simp)
+    by_cases hc : 136 ≤ cap
+    · exact hc
+    · rw [pu_tag_exceeds_cap_rejected cap toyDh toyHash pad32_length .x25519 [1] [2] [3] [] [] [] (List.replicate 128 0) 16
+        (by omega) (by simp) (by simp; omega) (by simp)] at hk
+      cases hk
+  · intro hc D hash hlen c e s r alg apu apv tag n hn ht
+    exact tag_guard_partial cap D hash hlen c e s r alg apu apv tag n hn ht (by omega)
+
+/-- FALSE on the pinned tree, `[0u8; 132]` (witness: a 125-byte tag) — defect D30 -/
+theorem tag_guard_complete_refuted_132 : ¬ TagGuardCompleteFor 132 := by
   intro h
   obtain ⟨k, hk⟩ := h toyDh toyHash pad32_length .x25519 [1] [2] [3] [] [] [] (List.replicate 125 0) 16 (by omega) (by simp)
-  rw [pu_tag_125_128_rejected toyDh toyHash pad32_length .x25519 [1] [2] [3] [] [] [] (List.replicate 125 0) 16
-    (by omega) (by simp) (by simp)] at hk
+  rw [pu_tag_exceeds_cap_rejected 132 toyDh toyHash pad32_length .x25519 [1] [2] [3] [] [] [] (List.replicate 125 0) 16
+    (by omega) (by simp) (by simp) (by simp)] at hk
   cases hk
 
-/-- the part that holds: every tag of at most 124 bytes is accepted (and gives the draft's key, `pu_matches_draft`) -/
-theorem tag_guard_partial (D : DhOps) (hash : Bytes → Bytes) (hlen : ∀ x, (hash x).length = 32) (c : Curve)
-    (e s r alg apu apv tag : Bytes) (n : Nat) (hn : n ≤ 32) (ht : tag.length ≤ 124) :
-    ∃ k, derive1puBytes D hash (Key.full D c e) (Key.full D c s) (Key.public D c r) alg apu apv tag false n = .ok k :=
-  ⟨_, Ecdh.puBytes_matches D hash hlen _ _ _ alg apu apv tag false n hn ht _ _
-    (Ecdh.exchange_full_public D c e r) (Ecdh.exchange_full_public D c s r)⟩
+/-- TRUE on every tree whose buffer has at least 136 bytes … -/
+theorem tag_guard_complete_current (h : 136 ≤ ecdh1puPubInfoCap) : TagGuardComplete :=
+  (tag_guard_complete_iff ecdh1puPubInfoCap).mpr h
+
+/-- … which the current source satisfies (obligation over the generated constant) -/
+theorem tag_guard_complete : TagGuardComplete := tag_guard_complete_current (by decide)
 
 /-! ### crypto_box -/
 
